@@ -71,6 +71,7 @@ const (
 type balloons struct {
 	options   *policy.BackendOptions // configuration common to all policies
 	bpoptions *BalloonsOptions       // balloons-specific configuration
+	cfgopts   *BalloonsOptions       // configuration as given, before filling in defaults
 	cch       cache.Cache            // nri-resource-policy cache
 	allowed   cpuset.CPUSet          // bounding set of CPUs we're allowed to use
 	reserved  cpuset.CPUSet          // system-/kube-reserved CPUs
@@ -1237,8 +1238,8 @@ func (p *balloons) Reconfigure(newCfg interface{}) error {
 		log.Debug("effective configuration:\n%s\n", utils.DumpJSON(p.bpoptions))
 	}()
 	newBalloonsOptions := balloonsOptions.DeepCopy()
-	if !changesBalloons(p.bpoptions, newBalloonsOptions) {
-		if !changesCpuClasses(p.bpoptions, newBalloonsOptions) {
+	if p.cfgopts != nil && !changesBalloons(p.cfgopts, newBalloonsOptions) {
+		if !changesCpuClasses(p.cfgopts, newBalloonsOptions) {
 			log.Info("no configuration changes")
 		} else {
 			log.Info("configuration changes only on CPU classes")
@@ -1247,9 +1248,13 @@ func (p *balloons) Reconfigure(newCfg interface{}) error {
 			// must be kept in use, because each Balloon
 			// instance holds a direct reference to its
 			// BalloonDef.
-			for i := range p.bpoptions.BalloonDefs {
-				p.bpoptions.BalloonDefs[i].CpuClass = newBalloonsOptions.BalloonDefs[i].CpuClass
+			p.bpoptions.IdleCpuClass = newBalloonsOptions.IdleCpuClass
+			for _, newDef := range newBalloonsOptions.BalloonDefs {
+				if blnDef := p.balloonDefByName(newDef.Name); blnDef != nil {
+					blnDef.CpuClass = newDef.CpuClass
+				}
 			}
+			p.cfgopts = newBalloonsOptions.DeepCopy()
 			// (Re)configures all CPUs in balloons.
 			if err := p.resetCpuClass(); err != nil {
 				log.Warnf("failed to reset CPU class: %v", err)
@@ -1351,8 +1356,20 @@ func (p *balloons) validateConfig(bpoptions *BalloonsOptions) error {
 }
 
 // setConfig takes new balloon configuration into use.
-func (p *balloons) setConfig(bpoptions *BalloonsOptions) error {
+func (p *balloons) setConfig(bpoptions *BalloonsOptions) (retErr error) {
 	bpoptions = bpoptions.DeepCopy()
+	cfgopts := bpoptions.DeepCopy()
+	savedAllowed, savedReserved, stateTouched := p.allowed, p.reserved, false
+	defer func() {
+		if retErr == nil {
+			p.cfgopts = cfgopts
+		} else if stateTouched {
+			// Force the next (re)configuration to be applied in full.
+			p.cfgopts = nil
+		} else {
+			p.allowed, p.reserved = savedAllowed, savedReserved
+		}
+	}()
 
 	// Handle AvailableResources.cpus, if defined.
 	// Set p.allowed: CPUs available for the policy.
@@ -1389,6 +1406,7 @@ func (p *balloons) setConfig(bpoptions *BalloonsOptions) error {
 	// Preparation and configuration validation is now done
 	// without touching the state of the policy.
 	// Next apply the configuration.
+	stateTouched = true
 	p.reservedBalloonDef = reservedBalloonDef
 	p.defaultBalloonDef = defaultBalloonDef
 	p.balloons = []*Balloon{}
